@@ -34,12 +34,25 @@ import shutil
 
 from vlib import env
 
-THEOREMS = []
+THEOREMS = ["factory_tree_flags", "convert_preserves_obs", "upgrade_preserves_obs", "keeps_treeInv",
+            "reconfigure_composes", "force_destroys_witness", "partial_apply_witness"]
 RULE = ("case = (history script, dirty flag, source layout x repository placement, target | chain of targets | source "
         "format); non-trivial = the operation succeeds and changes the layout / format; distinct by (layout, target(s), "
         "dirty, history shape)")
-ASSUMPTIONS = []
-TRUSTED = []
+ASSUMPTIONS = [
+    "the master / parent branch named by the remembered location carries the same tags as the local branch (it is "
+    "sprouted from it or is its origin): Reconfigure merges tags into a branch reference target, conflicts are not generated",
+    "reconfiguration chains use formats whose branch supports old-bound locations and tags (2a, 1.9, pack-0.92); "
+    "knit-era formats appear in the upgrade stream only",
+    "a cross-format fetch refused with IncompatibleRepositories (repository created by to_standalone for a lightweight "
+    "checkout has the default format) is an excluded, counted outcome: nothing changes",
+]
+TRUSTED = [
+    "history is abstracted to a code in the model: that fetch / the repository converters keep every revision's testament is "
+    "exactly what the correspondence run measures (testament sha1 of the whole ancestry before and after), not what is proved",
+    "the model's view of a location (tree?, bound?, reference?, repository placement, remembered location, in sync) is read "
+    "from the real objects by the harness, independently of Reconfigure",
+]
 
 TARGETS = ["branch", "tree", "checkout", "lightweight-checkout", "standalone", "use-shared"]
 SOURCES = ["tree", "branch", "checkout", "lightweight-checkout"]
@@ -442,3 +455,135 @@ def scenarios(ctx):
         jobs.append(((ctx.seed, idx, source, shared, dirty, rng.choice(fmts)), [rng.choice(TARGETS) for _ in range(k)],
                      rng.random() < 0.1, rng.random() < 0.1))
     return jobs
+
+
+# --------------------------------------------------------------------------
+# format upgrades
+
+UPGRADE_FORMATS = ["knit", "dirstate", "dirstate-tags", "pack-0.92", "rich-root", "rich-root-pack", "1.6", "1.6.1-rich-root",
+                   "1.9", "1.9-rich-root", "1.14", "1.14-rich-root", "2a", "dirstate-with-subtree", "pack-0.92-subtree"]
+FMT_CODE = {f: i + 1 for i, f in enumerate(UPGRADE_FORMATS)}       # 0 = the default format (2a)
+FMT_CODE["2a"] = 0
+DEFAULT_TRIPLE = ("RepositoryFormat2a", "BzrBranchFormat7", "WorkingTreeFormat6")
+
+
+def formats_of(path):
+    from breezy.controldir import ControlDir
+    cd = ControlDir.open(path)
+    return (type(cd.find_repository()._format).__name__, type(cd.open_branch()._format).__name__,
+            type(cd.open_workingtree()._format).__name__, type(cd._format).__name__)
+
+
+def run_upgrade(arg):
+    """(seedt, target format name | None) -> result dict"""
+    seedt, target = arg
+    from breezy import upgrade
+    from breezy.controldir import format_registry
+    info = build_location(seedt)
+    res = dict(fmt=info["fmt"], target=target, shared=info["shared"], source=info["source"], dirty=info["dirty"])
+    try:
+        path = info["path"]
+        res["obs0"] = observe(path)
+        res["f0"] = formats_of(path)
+        todo = [path]
+        if info["shared"]:
+            todo = [os.path.dirname(path)]          # the shared repository (its branches are upgraded with it)
+        try:
+            excs = []
+            for p in todo:
+                excs += upgrade.upgrade(p, None if target is None else format_registry.make_controldir(target), clean_up=True)
+            res["out"] = "ok" if not excs else "E:" + type(excs[0]).__name__
+        except Exception as e:  # noqa
+            res["out"] = "E:" + type(e).__name__
+            res["errtext"] = str(e)[:200]
+        try:
+            res["obs"] = observe(path)
+            res["f1"] = formats_of(path)
+            res["leftovers"] = sorted(n for n in os.listdir(path) if n.startswith("backup.bzr"))
+        except Exception as e:  # noqa
+            res["broken"] = "%s: %s" % (type(e).__name__, str(e)[:200])
+    finally:
+        shutil.rmtree(info["root"], ignore_errors=True)
+    return res
+
+
+def check_upgrade(ctx, arg, res):
+    seedt, target = arg
+    case = dict(seed=list(seedt), upgrade_to=target or "default")
+    ctx.case(dict(fmt=res["fmt"], target=target, shared=res["shared"], dirty=res["dirty"], source=res["source"]),
+             nontrivial=res.get("f0") != res.get("f1"))
+    ctx.count("upgrade:%s->%s:%s" % (res["fmt"], target or "default", res.get("out")))
+    if "broken" in res:
+        ctx.violation(case, "after upgrading %s the location cannot be opened: %s" % (res["fmt"], res["broken"]))
+        return case, "convert %d 0" % FMT_CODE[res["fmt"]], "broken"
+    for k in res["obs0"]:
+        if res["obs"][k] != res["obs0"][k]:
+            a, b = res["obs0"][k], res["obs"][k]
+            detail = ""
+            if isinstance(a, dict) and isinstance(b, dict):
+                detail = repr([(x, a.get(x), b.get(x)) for x in sorted(set(a) | set(b), key=str) if a.get(x) != b.get(x)][:3])
+            ctx.violation(case, "upgrade %s -> %s changed %s %s" % (res["fmt"], target or "default", k, detail))
+    if res["out"] == "ok" and target is None and res["f1"][:3] != DEFAULT_TRIPLE:
+        ctx.violation(case, "upgrade of %s reports success but the formats are %r" % (res["fmt"], res["f1"]))
+    if res["out"] != "ok":
+        ctx.violation(case, "upgrade of %s failed: %s %s" % (res["fmt"], res["out"], res.get("errtext", "")))
+    if res.get("leftovers"):
+        ctx.count("backup-left")
+    impl = "uptodate" if res["f0"] == res["f1"] else "ok %d" % (0 if res["f1"][:3] == DEFAULT_TRIPLE and target is None else 99)
+    tcode = 0 if target is None else 99
+    return case, "convert %d %d" % (FMT_CODE[res["fmt"]] if res["f0"][:3] != DEFAULT_TRIPLE or target else 0, tcode), impl
+
+
+# --------------------------------------------------------------------------
+
+def run(ctx):
+    jobs = scenarios(ctx)
+    results = ctx.pmap(run_chain, jobs)
+    cases, lines, impls, states = [], [], [], []
+    for a, r in zip(jobs, results):
+        if "state0" not in r or "obs0" not in r:
+            ctx.count("scenario-build-failed")
+            continue
+        c, l, i = check_chain(ctx, a, r)
+        if "E:IncompatibleRepositories" in i:
+            # a repository created by to_standalone for a lightweight checkout has the default format, not the
+            # branch's: a later fetch into an older shared repository is refused (nothing changes). Counted only.
+            ctx.count("excluded:incompatible-repositories")
+            continue
+        cases.append(c); lines.append(l); impls.append(i); states.append(r["state0"])
+    ujobs = []
+    fmts = UPGRADE_FORMATS if ctx.thorough() else [f for i, f in enumerate(UPGRADE_FORMATS) if (i + ctx.seed) % 4 == 0]
+    idx = 1000
+    for f in fmts:
+        for k in range(ctx.pick(1, 3)):
+            idx += 1
+            source = ["tree", "checkout", "tree"][k % 3]
+            ujobs.append(((ctx.seed, idx, source, k == 2, True, f), None))
+    idx += 1
+    ujobs.append(((ctx.seed, idx, "tree", False, True, "2a"), "development-colo"))
+    uresults = ctx.pmap(run_upgrade, ujobs)
+    for a, r in zip(ujobs, uresults):
+        c, l, i = check_upgrade(ctx, a, r)
+        cases.append(c); lines.append(l); impls.append(i); states.append(None)
+    if ctx.model_available and lines:
+        outs = ctx.model(lines)
+        for c, l, i, m, st in zip(cases, lines, impls, outs, states):
+            ctx.traces += 1
+            if st is not None:
+                m = canon_model(m, st)
+            if i != m:
+                ctx.mismatch(c, i, m, line=l)
+
+
+def replay(ctx, case):
+    if "targets" in case:
+        arg = (tuple(case["seed"]), case["targets"], case["force"], case.get("unsync", False))
+        r = run_chain(arg)
+        c, l, i = check_chain(ctx, arg, r)
+        m = canon_model(ctx.model([l])[0], r["state0"]) if ctx.model_available else None
+        return dict(case=case, impl=i, model=m, agree=(i == m), oracle_failures=[v["what"] for v in ctx.violations])
+    arg = (tuple(case["seed"]), None if case["upgrade_to"] == "default" else case["upgrade_to"])
+    r = run_upgrade(arg)
+    c, l, i = check_upgrade(ctx, arg, r)
+    m = ctx.model([l])[0] if ctx.model_available else None
+    return dict(case=case, impl=i, model=m, agree=(i == m), oracle_failures=[v["what"] for v in ctx.violations])
